@@ -93,6 +93,7 @@ func runDirectedBatch(b *harness.B) {
 		b.Inconclusive(fmt.Sprintf("only %d of %d registered types could be exercised", n, want))
 	}
 	c.runValues(b.Pick(6, 60))
+	usedJSON(b)
 
 	// observed only (outside the property's domain): specifiers that are not valid UTF-8
 	observeNonUTF8Specifiers(b, c)
